@@ -1086,7 +1086,8 @@ func (c *Conn) sealRecordContent(
 	}
 	if vtrace.Enabled {
 		vtrace.Emit(c.handshakeConfig, "rec.seal", "client", dtlsstate.CommonState(c.state).IsClient, "epoch", int(epoch),
-			"seq", seq, "ctype", int(contentType), "len", len(plaintext), "gen", int(generation.Generation))
+			"seq", seq, "ctype", int(contentType), "len", len(plaintext), "gen", int(generation.Generation),
+			"head", string(plaintext[:min(200, len(plaintext))]))
 	}
 
 	header := recordlayer.UnifiedHeader{
